@@ -7,6 +7,6 @@ while true; do
   if [ "$job" = STOP ]; then exit 0; fi
   set -- $job
   echo "$(date +%T) lane$K start $2" >> $Q/log
-  /verif/tools/lane_eval.sh $K "$1" "$2" "$3" > $Q/$2.out 2>&1
+  /verif/tools/lane_eval.sh $K "$1" "$2" "$3" "$4" > $Q/$2.out 2>&1
   echo "$(date +%T) lane$K done $2: $(grep -h 'DETECTED\|MISSED' /tmp/lane$K/eval-$2.log | cut -c1-200 | tr '\n' ' ')" >> $Q/log
 done
